@@ -372,3 +372,29 @@ def rule_guard(chk, facts):
                    f"{fn_short(k)} constructs a Compound accessor ({s.name}) without a live DepthGuard",
                    where=f"rust/candid/src/de.rs:{s.ln}")
     chk.floor("Compound constructions", m, 5)
+
+
+# ---------------------------------------------------------------------------------------------- type aliases are resolved
+def rule_unrolled(chk, facts):
+    """every test of the expected / wire type in a deserialize_* routine happens after unroll_type() resolved type
+    names (Var / Knot) on that path: otherwise a value whose type is written through a definition is rejected"""
+    D = get_decoder(facts)
+    items = [(k, eb, s) for k, eb, s in D.sites("typetest") if is_decoding_method(k)]
+    by_fn = {}
+    for k, eb, s in items:
+        by_fn.setdefault(k, []).append((eb, s))
+    n = 0
+    for k, lst in sorted(by_fn.items()):
+        chk.analysed(k)
+        n += 1
+        bad = []
+        for eb, s in lst:
+            for st in s.states:
+                if not ("unrolled" in st or vouched(st)):
+                    bad.append((s.ln, show(st)))
+        chk.expect(not bad, f"{fn_short(k)}:types-unrolled-before-test",
+                   f"{fn_short(k)} tests the expected or wire type on a path where unroll_type() has not been called: a type that is a "
+                   f"reference to a definition (Var / Knot) would be compared unresolved and a well-typed value rejected "
+                   f"(tests at lines {sorted({b[0] for b in bad})[:4]})", where=f"rust/candid/src/de.rs:{bad[0][0] if bad else ''}",
+                   ok_detail="unroll_type() (or a vouching fast-path marker) precedes every type test")
+    chk.floor("deserialize_* routines that test types", n, 25)
